@@ -22,6 +22,10 @@ HEADER = ("From Coq Require Import List ZArith Bool.\nFrom Inferno Require Impor
 IMPL = os.path.join(F.VERIF, "tools", "impl", "c01_impl.py")
 
 SHAPES = [[], [2], [2, 3], [1], [3, 1]]
+# integer dtypes in which tensor offsets are handed to the implementation (last field of 'rrt' / 'wrt'; used by the
+# implementation side only: the Coq model and the oracle see the same integer offsets).  Values are identical in all
+# of them (default stream: offsets <= 2N <= 14, lengths <= 7, so nothing the caller passes is out of range).
+OFFSET_DTYPES = ["int64", "int32", "int16", "uint8"]
 
 
 def nel(shape):
@@ -39,7 +43,9 @@ def rand_val(rng, d):
     return rng.randint(-19, 19)  # halves
 
 
-def gen_case(rng: random.Random, malformed: bool):
+def gen_case(rng: random.Random, malformed: bool, aux: random.Random | None = None):
+    """aux: independent generator for the implementation-only fields (keeps the main stream what it was)"""
+    aux = aux or random.Random(0)
     N = rng.choice([1, 1, 2, 2, 3, 3, 4, 5, 6, 7])
     shape = rng.choice(SHAPES)
     d0 = rng.choice([0, 1, 1, 2, 2])
@@ -89,7 +95,8 @@ def gen_case(rng: random.Random, malformed: bool):
             ops.append(["rrs", ln, rng.randint(0, 2 * N), rng.random() < 0.5])
         elif k == "rrt":
             ln = rng.choice([N, rng.randint(1, N)])
-            ops.append(["rrt", ln, [rng.randint(0, 2 * N) for _ in range(nel(sh))], sh, rng.random() < 0.5])
+            ops.append(["rrt", ln, [rng.randint(0, 2 * N) for _ in range(nel(sh))], sh, rng.random() < 0.5,
+                        aux.choice(OFFSET_DTYPES)])
         elif k == "wrs":
             ln = rng.choice([N, rng.randint(1, N)]) if not (malformed and rng.random() < 0.2) else N + 1
             inplace = rng.random() < 0.5
@@ -102,12 +109,58 @@ def gen_case(rng: random.Random, malformed: bool):
             ln = rng.choice([N, rng.randint(1, N)])
             de = dcur if (dcur is not None and not (malformed and rng.random() < 0.3)) else dd
             ops.append(["wrt", de, sh, [[rand_val(rng, de) for _ in range(ln)] for _ in range(nel(sh))],
-                        [rng.randint(0, 2 * N) for _ in range(nel(sh))], sh, rng.random() < 0.5, rng.random() < 0.5])
+                        [rng.randint(0, 2 * N) for _ in range(nel(sh))], sh, rng.random() < 0.5, rng.random() < 0.5,
+                        aux.choice(OFFSET_DTYPES)])
     return {"N": N, "init": init, "ops": ops}
 
 
-def gen_cases(rng, n):
-    return [gen_case(rng, malformed=(i % 4 == 3)) for i in range(n)]
+def gen_cases(rng, n, aux=None):
+    return [gen_case(rng, malformed=(i % 4 == 3), aux=aux) for i in range(n)]
+
+
+def gen_offset_cases(rng, n):
+    """second stream, aimed at the tensor-offset paths of readrange / writerange: record sizes that do not divide 256
+    (and a few that do), distinguishable contents, ranges in both directions whose offsets are small (some element with
+    offset < length-1, so that a forward range reaches past the write position) or large (up to 2N), the offsets handed
+    over in every integer dtype of OFFSET_DTYPES in turn"""
+    cases = []
+    for i in range(n):
+        N = [3, 5, 6, 7, 3, 5, 6, 7, 2, 4][i % 10]
+        shape = rng.choice([[2], [2, 3], [], [3, 1], [1]])
+        d = rng.choice([1, 2, 2])
+        ne = nel(shape)
+        ops = []
+        c = 1
+        for _ in range(rng.randint(N - 1, N + 2)):       # distinct observations, pointer anywhere
+            ops.append(["push", d, shape, [2 * (c + 20 * e) for e in range(ne)], rng.random() < 0.5])
+            c += 1
+        for r in range(rng.randint(3, 6)):
+            odt = OFFSET_DTYPES[(i + r) % len(OFFSET_DTYPES)]
+            ln = rng.choice([N, N, max(1, N - 1), rng.randint(1, N)])
+            fwd = rng.random() < 0.7
+            small = rng.random() < 0.7
+            offs = [rng.randint(0, max(0, ln - 2)) if (small and rng.random() < 0.7) else rng.randint(0, 2 * N)
+                    for _ in range(ne)]
+            if rng.random() < 0.35:
+                ops.append(["wrt", d, shape, [[2 * (100 + 10 * e + j) for j in range(ln)] for e in range(ne)], offs, shape,
+                            fwd, rng.random() < 0.5, odt])
+                ops.append(["rrs", N, 1, False])
+            else:
+                ops.append(["rrt", ln, offs, shape, fwd, odt])
+            if rng.random() < 0.3:
+                ops.append(["push", d, shape, [2 * (c + 20 * e) for e in range(ne)], rng.random() < 0.5])
+                c += 1
+        cases.append({"N": N, "init": ["full", d, shape, [-2] * ne], "ops": ops})
+    return cases
+
+
+def narrow_offset_overflow_cases():
+    """NOT part of the default stream (finding candidate on the unchanged code, reported to the lead): tensor offsets of a
+    narrow integer dtype close to its maximum; the backward path computes ``offset + (length - 1)`` in that dtype."""
+    mk = lambda odt, offs: {"N": 3, "init": ["full", 2, [2], [-2, -2]],
+                            "ops": [["push", 2, [2], [2 * k, 20 * k], False] for k in (1, 2, 3)]
+                            + [["rrt", 3, offs, [2], False, odt]]}
+    return [mk("uint8", [254, 253]), mk("int8", [126, 125]), mk("int16", [32766, 32765]), mk("int64", [254, 253])]
 
 
 def exhaustive_cases(maxN=3, depth=3):
@@ -346,7 +399,10 @@ def run(ctx):
     """correspondence + oracle.  ctx: dict(seed, tier, n)"""
     rng = random.Random(ctx["seed"])
     n = 400 if ctx["tier"] == "quick" else 4000
-    cases = load_corpus() + gen_cases(rng, n)
+    cases = load_corpus() + gen_cases(rng, n, random.Random(ctx["seed"] * 31 + 7))
+    cases += gen_offset_cases(random.Random(ctx["seed"] * 131 + 5), 60 if ctx["tier"] == "quick" else 600)
+    # narrow integer offsets close to their dtype maximum (overflowed before the repair 0084b90): always run
+    cases += narrow_offset_overflow_cases()
     exhaustive = False
     if ctx["tier"] == "thorough":
         cases += exhaustive_cases(3, 3)
@@ -373,11 +429,20 @@ def run(ctx):
         "evaluations": len(cases),
         "distinct_nontrivial": len({repr(c) for c in cases if is_nontrivial(c)}),
         "rule": "seeded random RecordTensor operation sequences (3-40 ops over 13 operation kinds, N in 1..7, 5 shapes, "
-                "3 dtypes, storage None/empty/initialised; every 4th case from a malformed stream); non-trivial = "
+                "3 dtypes, storage None/empty/initialised; every 4th case from a malformed stream; tensor offsets handed to the "
+                "implementation as int64/int32/int16/uint8 tensors with identical values) plus a stream aimed at the tensor-"
+                "offset range paths (N in {3,5,6,7,2,4}, distinguishable contents, forward/backward ranges with small and "
+                "large offsets, every offset dtype in turn); non-trivial = "
                 ">=3 ops of >=2 kinds; distinct by full case text"
                 + ("; plus every sequence of depth<=3 over a 14-op alphabet for N<=3" if exhaustive else ""),
         "op_distribution": dict(dist), "error_distribution": dict(errs),
         "N_distribution": dict(Counter(c["N"] for c in cases)),
+        "tensor_offset_dtype_distribution": dict(Counter(o[-1] for c in cases for o in c["ops"]
+                                                         if o[0] in ("rrt", "wrt") and isinstance(o[-1], str))),
+        "forward_tensor_ranges_reaching_past_the_write_position": sum(
+            1 for c in cases for o in c["ops"]
+            if (o[0] == "rrt" and o[4] and min(o[2], default=99) < o[1] - 1)
+            or (o[0] == "wrt" and o[6] and o[3] and min(o[4], default=99) < len(o[3][0]) - 1)),
         "samples": cases[:2],
         "mismatches": mismatches, "oracle_failures": oracle_fail,
         "traces_validated_against_impl": len(cases) - len(mismatches),
